@@ -174,4 +174,59 @@ theorem Flight.run_proj (f : Framing) (i : Nat) : ∀ (sched : List Nat) (fl : F
       simp only [Flight.run, List.filter_cons, hb, Bool.false_eq_true, if_false, this]
       rw [List.count_cons_of_ne hj]
 
+/-! ### a failing reader -/
+
+theorem childrenAux_take_prefix : ∀ (ts : List Tok) (m i d : Nat),
+    childrenAux (ts.take m) i d <+: childrenAux ts i d := by
+  intro ts
+  induction ts with
+  | nil => intro m i d; simp [childrenAux]
+  | cons t ts ih =>
+    intro m i d
+    cases m with
+    | zero => simp [childrenAux]
+    | succ m =>
+      simp only [List.take_succ_cons]
+      cases t with
+      | start n as =>
+        simp only [childrenAux]
+        split
+        · exact List.cons_prefix_cons.mpr ⟨rfl, ih m _ _⟩
+        · exact ih m _ _
+      | stop n =>
+        simp only [childrenAux]
+        split
+        · exact List.prefix_refl _
+        · exact ih m _ _
+      | chars x => simpa [childrenAux] using ih m (i + 1) d
+      | comment x => simpa [childrenAux] using ih m (i + 1) d
+      | procInst x y => simpa [childrenAux] using ih m (i + 1) d
+      | directive x => simpa [childrenAux] using ih m (i + 1) d
+
+theorem children_take_prefix (stanza : List Tok) (m : Nat) :
+    children (stanza.take m) <+: children stanza := childrenAux_take_prefix stanza m 0 0
+
+theorem specCalls_pats (tbl : Table) (k : Kind) (typ : String) (stanza : List Tok) :
+    ∀ (cs : List (Nat × Name)) (cons : List Nat),
+      (specCalls tbl k typ stanza cs cons).map (·.pat) = cs.map fun c => lookup tbl k typ c.2 := by
+  intro cs
+  induction cs with
+  | nil => intro cons; simp [specCalls]
+  | cons c cs ih =>
+    intro cons
+    obtain ⟨pos, n⟩ := c
+    unfold specCalls
+    cases hl : lookup tbl k typ n <;> simp [ih, hl]
+
+theorem forChildrenCut_spec (tbl : Table) (k : Kind) (typ : String) (stanza : List Tok)
+    (cons : List Nat) (cut : Nat) :
+    forChildrenCut tbl k typ stanza cons cut
+      = specCalls tbl k typ (stanza.take cut) (children (stanza.take cut)) cons := by
+  unfold forChildrenCut
+  cases h : stanza.take cut with
+  | nil => simp [children, childrenAux, specCalls]
+  | cons start body =>
+    simp only [dispatchChildrenG_eq]
+    exact (dispatchChildren_spec tbl k typ (start :: body) _ cons ⟨[start], body⟩ rfl).1
+
 end XmppModel.Mux
